@@ -90,6 +90,13 @@ Read(plen) ==
                          /\ last' = [n |-> r.fill, err |-> "none"]
                          /\ delivered' = delivered + r.fill
 
+\* Reset(src): from any state, also with bytes still parked in the overflow buffer, back to the initial state
+\* with nothing pending; the next stream is produced from the groups g of the new source
+Reset(g) ==
+    /\ st' = "initial" /\ ovLen' = 0 /\ ovPos' = 0
+    /\ groups' = g /\ produced' = 0 /\ delivered' = 0
+    /\ last' = [n |-> 0, err |-> "none"]
+
 \* ---- properties (C18) ------------------------------------------------------
 \* everything produced is either delivered or waiting, in order, in the overflow buffer
 NothingLostNothingTwice == st \in {"initial", "reading", "flushing"} => delivered + (ovLen - ovPos) = produced
